@@ -14,7 +14,7 @@ import (
 
 // C02 — documents survive a marshal/unmarshal round trip.
 
-var docOpts = gen.DocOpts{Schema: gen.SchemaOpts{MinTypes: 1, MaxTypes: 3, MaxAttrs: 5, MaxRelEdges: 5, AllKindsChance: 10}}
+var docOpts = gen.DocOpts{Schema: gen.SchemaOpts{MinTypes: 1, MaxTypes: 3, MaxAttrs: 5, MaxRelEdges: 5, AllKindsChance: 10, OddFromType: true}}
 
 // compareSelected checks the selected fields of a resource that came back
 // against the model of the one that went in.
